@@ -38,6 +38,12 @@ class Transform(data_input.DataInputAbstract, Numbered_MCNP_Object):
             words = list(self._tree["data"])
             if len(words) < 3:
                 raise MalformedInputError(input, f"Not enough entries were provided")
+            # 3 for the displacement, 9 for the rotation, 1 for the direction
+            if len(words) > 13:
+                raise MalformedInputError(
+                    input,
+                    f"A transform has at most 13 entries; {len(words)} were provided",
+                )
             modifier = self._classifier.modifier
             if modifier and "*" in modifier.value:
                 self._is_in_degrees = True
